@@ -27,6 +27,7 @@ K = 32.0
 MODELS = {
     "convection+": (("convection", 1.0), "convection"), "convection-": (("convection", -1.5), "convection"), "burgers": (("burgers",), "burgers"),
     "shallowwater": (("shallowwater", 9.81), "shallowwater"), "euler1d": (("euler1d", 1.4), "euler1d"), "nozzle-const": (("nozzle", "const", 1.4), "euler1d"),
+    "euler1d-g5/3": (("euler1d", 5.0 / 3.0), "euler1d"), "shallowwater-g1": (("shallowwater", 1.0), "shallowwater"),       # secondary parameters
 }
 
 
@@ -99,6 +100,11 @@ def shard_1d(arg):
 
 ALPHA2D = [(1.0, 0.0, 0.0, 1.0), (2.0, 0.5, -0.3, 1.0), (1.0, -0.4, 0.6, 2.0)]
 PER = {t: {"type": "per"} for t in ("left", "right", "top", "bottom")}
+# periodic in one direction only: the invariance holds for shifts along that direction
+BC2 = {"per": PER,
+       "xper-ywall": {"left": {"type": "per"}, "right": {"type": "per"}, "top": {"type": "sym"}, "bottom": {"type": "sym"}},
+       "yper-xwall": {"left": {"type": "sym"}, "right": {"type": "sym"}, "top": {"type": "per"}, "bottom": {"type": "per"}},
+       "yper-xopen": {"left": {"type": "insub", "ptot": 3.0, "rttot": 1.5}, "right": {"type": "outsub", "p": 0.9}, "top": {"type": "per"}, "bottom": {"type": "per"}}}
 
 
 def field2d(model, msh, idx):
@@ -114,10 +120,10 @@ def roll2d(a, nx, ny, sx, sy):
     return np.roll(np.roll(b, sx, axis=-1), sy, axis=-2).reshape(a.shape)
 
 
-def check_2d(flux, rname, nx, ny, nlet, res=None):
+def check_2d(flux, rname, nx, ny, nlet, res=None, bcname="per"):
     model = space.euler.euler2d()
     msh = space.mesh2.mesh2d(nx, ny, 2.0, 0.75)
-    disc = space.modeldisc.fvm2d(model, msh, space.recon(rname), PER, numflux=flux)
+    disc = space.modeldisc.fvm2d(model, msh, space.recon(rname), BC2[bcname], numflux=flux)
     R, ok = {}, {}
     nc = nx * ny
     for idx in itertools.product(range(nlet), repeat=nc):
@@ -127,10 +133,10 @@ def check_2d(flux, rname, nx, ny, nlet, res=None):
         R[idx] = [np.asarray(x, float).copy() for x in r]
         ok[idx] = all(np.all(np.isfinite(x)) for x in R[idx])
     out = []
-    site = "C14/2d/%s/%s" % (flux, "first-order" if rname == "extrapol2d1" else "k-scheme")
+    site = "C14/2d/%s/%s%s" % (flux, "first-order" if rname == "extrapol2d1" else "k-scheme", "" if bcname == "per" else "/" + bcname)
     ar = np.arange(nc)
-    for sx in range(nx):
-        for sy in range(ny):
+    for sx in (range(nx) if bcname in ("per", "xper-ywall") else (0,)):
+        for sy in (range(ny) if bcname in ("per", "yper-xwall", "yper-xopen") else (0,)):
             if sx == 0 and sy == 0:
                 continue
             perm = roll2d(ar, nx, ny, sx, sy)      # perm[c] = index of the cell whose content moves to c
@@ -154,10 +160,11 @@ def check_2d(flux, rname, nx, ny, nlet, res=None):
 
 
 def shard_2d(arg):
-    flux, rname, nx, ny, nlet = arg
+    flux, rname, nx, ny, nlet = arg[:5]
+    bcname = arg[5] if len(arg) > 5 else "per"
     res = core.Res()
-    for s, w in check_2d(flux, rname, nx, ny, nlet, res):
-        res.violation(s, w, {"kind": "2d", "flux": flux, "recon": rname, "nx": nx, "ny": ny, "nlet": nlet})
+    for s, w in check_2d(flux, rname, nx, ny, nlet, res, bcname):
+        res.violation(s, w, {"kind": "2d", "flux": flux, "recon": rname, "nx": nx, "ny": ny, "nlet": nlet, "bc": bcname})
     res.sample({"flux": flux, "recon": rname, "grid": [nx, ny], "data_letters": [1] + [0] * (nx * ny - 1), "shift": [1, 0]}, cap=1)
     return res
 
@@ -301,6 +308,9 @@ def run(ctx):
                 if nc > 12:
                     continue
                 cfg2.append((flux, rname, nx, ny, nlet))
+                if nc <= 6:
+                    for b in ("xper-ywall", "yper-xwall", "yper-xopen"):
+                        cfg2.append((flux, rname, nx, ny, min(nlet, 3), b))
     cfg2.sort(key=lambda c: -(c[4] ** (c[2] * c[3])))
     ctx.pmap("shift-2d", shard_2d, cfg2)
     cfg3 = [(i, s) for i in space.integrators() for s in range(len(SYS1D))]
@@ -315,7 +325,7 @@ def replay(case):
     if k == "1d":
         return check_1d(case["model"], case["flux"], case["recon"], case["n"], case["L"], case["x0"], case["nlet"], case["strength"])
     if k == "2d":
-        return check_2d(case["flux"], case["recon"], case["nx"], case["ny"], case["nlet"])
+        return check_2d(case["flux"], case["recon"], case["nx"], case["ny"], case["nlet"], None, case.get("bc", "per"))
     if k == "s1":
         return check_solve_1d(case["integrator"], case["sys"], tuple(case["idx"]))
     return check_solve_2d(case["integrator"], case["flux"], case["recon"], case["nx"], case["ny"], tuple(case["idx"]))
